@@ -145,6 +145,8 @@ type compiler struct {
 	Optimize    bool
 	Returns     []int
 	FuncName    string
+	typeScope   string // prefix of the globals that hold the types declared in the current function
+	inits       int    // number of init functions of the package compiled so far
 	localTypes  []localType // the types declared in the open blocks, innermost last
 }
 
@@ -517,16 +519,18 @@ func (c *compiler) compile(tok *token) []instruction {
 	case "function":
 		target := tok.Tokens[0]
 		c.FuncName = c.pkgPrefix(target.Text)
+		c.typeScope = c.expPrefix(target.Text)
 		res = append(res, c.compile(tok.Tokens[1])...)
 		idx := c.Globals.Index(c.expPrefix(target.Text))
 		res = append(res, instruction{Code: codeGlobalFunc, A: reg(idx)})
-		c.FuncName = ""
+		c.FuncName, c.typeScope = "", ""
 
 	case "lambda":
-		tmp := c.FuncName
+		tmp, tmpScope := c.FuncName, c.typeScope
 		c.FuncName = c.pkgPrefix(tok.Tokens[0].Pos.String())
+		c.typeScope = c.expPrefix(tok.Tokens[0].Pos.String())
 		res = append(res, c.compile(tok.Tokens[0])...)
-		c.FuncName = tmp
+		c.FuncName, c.typeScope = tmp, tmpScope
 
 	case "=":
 		res = append(res, c.compile(tok.Tokens[1])...)
@@ -710,9 +714,16 @@ func (c *compiler) compile(tok *token) []instruction {
 	case "init":
 		const initFunc = 0
 		c.FuncName = c.pkgPrefix("init")
+		// a package may have any number of init functions: each one is a function of its
+		// own, and so is the scope of the types it declares
+		c.inits++
+		c.typeScope = c.expPrefix("init")
+		if c.inits > 1 {
+			c.typeScope += fmt.Sprintf("#%d", c.inits)
+		}
 		res = append(res, c.compile(tok.Tokens[initFunc])...)
 		res = append(res, instruction{Code: codeCall})
-		c.FuncName = ""
+		c.FuncName, c.typeScope = "", ""
 	case "if":
 		const ifStmt, ifCond, ifThen, ifElse = 0, 1, 2, 3
 		c.Begin()
@@ -924,7 +935,9 @@ func (c *compiler) compile(tok *token) []instruction {
 			// getStruct = codeLocalGet
 			// idx = c.Shadow(key)
 			name := key
-			key = c.FuncName + "." + key
+			// the global is named after the function by its full (import path) name, as the
+			// package-level types are: two packages may share their short name
+			key = c.typeScope + "." + key
 			idx = c.Globals.Index(key)
 			c.localTypes = append(c.localTypes, localType{name: name, locals: c.Locals, depth: len(c.scope), slots: c.Locals.Len(), global: idx})
 		} else {
@@ -978,6 +991,7 @@ func (c *compiler) compile(tok *token) []instruction {
 	case "method":
 		const methodType, methodName, methodFunc = 0, 1, 2
 		c.FuncName = c.pkgPrefix(tok.Tokens[methodType].Text) + "." + tok.Tokens[methodName].Text
+		c.typeScope = c.expPrefix(tok.Tokens[methodType].Text) + "." + tok.Tokens[methodName].Text
 		res = append(res, c.compile(tok.Tokens[methodFunc])...)
 		recv := c.Globals.Index(c.expPrefix(tok.Tokens[methodType].Text))
 		if typ := c.Globals.Read(recv); typ.t == typeType {
@@ -991,7 +1005,7 @@ func (c *compiler) compile(tok *token) []instruction {
 		res = append(res, instruction{Code: codeSetMethod,
 			A: reg(c.Globals.Index(tok.Tokens[methodName].Text)),
 		})
-		c.FuncName = ""
+		c.FuncName, c.typeScope = "", ""
 	case "~":
 	default:
 		panicf("unknown symbol: %v", tok.Symbol)
